@@ -1033,8 +1033,17 @@ func (r *schedRun) driveRandom() error {
 				r.passDeadline()
 				continue
 			}
-			if len(r.sc.Init) > 0 && !r.stuck {
-				// a retry that can make no progress any more: record it, then end the run by cancelling it
+			if r.sc.Stop && !r.stopIssued && !ret {
+				// the scripted stop has not been made yet: make it now (a run with repeating steps only ends this way)
+				r.stopIssued = true
+				r.issueStop(syscall.SIGTERM)
+				killAt = move + 1 + r.rng.Intn(12)
+				move++
+				continue
+			}
+			if !r.stuck && !ret {
+				// the run can make no progress any more (nothing is executing, the loop would repeat the same idle
+				// iteration for ever): record it, then end the run by cancelling it
 				r.stuck = true
 				r.emit(Ev{"ev": "Stuck"})
 				r.mu.Lock()
@@ -1154,7 +1163,7 @@ func (r *schedRun) driveFree() error {
 			}
 		}
 	}
-	deadline := time.Now().Add(20 * time.Second)
+	deadline := time.Now().Add(8 * time.Second)
 	for {
 		r.mu.Lock()
 		ret := r.returned
@@ -1163,7 +1172,14 @@ func (r *schedRun) driveFree() error {
 			return nil
 		}
 		if time.Now().After(deadline) {
-			return fmt.Errorf("free run does not end within 20s")
+			if r.stuck {
+				return fmt.Errorf("free run does not end within 20s, not even after being cancelled")
+			}
+			// a run of scripted processes that live a few milliseconds each does not end: record it, cancel the run
+			r.stuck = true
+			r.emit(Ev{"ev": "Stuck"})
+			r.sched.Cancel(r.graph)
+			deadline = time.Now().Add(10 * time.Second)
 		}
 		time.Sleep(200 * time.Microsecond)
 	}
